@@ -320,7 +320,7 @@ func driveC08(t *testing.T, out *vEmitter) {
 					}
 				}
 				if wi >= len(who) && !redis && len(family) < 2 {
-					t.Fatalf("the large session was not split: %v", family)
+					out.Violation("control/large-session-not-split", "the large session was not split over several cookies: the split-deletion clause is not exercised", map[string]interface{}{"family": family})
 				}
 				for _, target := range []string{"/", "/oauth2/auth", "/oauth2/userinfo", "/oauth2/auth?allowed_groups=admins", "/oauth2/auth?allowed_groups=,admins", "/oauth2/auth?allowed_emails=" + url.QueryEscape(s.Email) + "&allowed_groups=zzz"} {
 					res := b.get(target)
